@@ -4,6 +4,9 @@
    All statements hold for every value type T (with its zero), every shape (0xN, Nx0 included), every pattern. *)
 From Coq Require Import List ZArith Bool Arith.
 From Alpaqa Require Import Sparsity SparsityProofs.
+From Alpaqa Require Import SparsityGenLib SparsityGen SparsityGenInst SparsityGenEq.
+   (* SparsityGen.v is REGENERATED from sparsity-conversions.hpp on every run (translate/gen_sparsity.py);
+      SparsityGenEq.v proves every generated piece equal to the piece of Sparsity.v it corresponds to *)
 Import ListNotations.
 
 (* (1) every conversion that returns, applied to a well-formed pattern, converts the values without exception and
@@ -107,6 +110,56 @@ Theorem C14_sparse_to_sparse_forwards : forall from req to a,
 Proof. exact sparse_to_sparse_forwards. Qed.
 Print Assumptions C14_sparse_to_sparse_forwards.
 
+(* ---------------------------------------------------------------- the same, about the code as translated on this run *)
+(* (G) the run of the GENERATED converters (constructor, then convert_values into a target buffer of the target's nnz with
+       arbitrary previous contents `fill`), dispatched like SparsityConverter<Sparsity<Conf>, To>, IS the run of the model:
+       same exception / same pattern / same values — under the in-bounds contract of the C++ on the source
+       (outer_ptr consistent with inner_idx; row_indices and col_indices of one length; one value per stored entry) *)
+Theorem C14_generated_run_is_model_run : forall (T : Type) (zero fill : T) from req (v : list T),
+  src_ok from -> length v = nnz from -> g_run zero fill from req v = model_run zero from req v.
+Proof. exact generated_run_is_model_run. Qed.
+Print Assumptions C14_generated_run_is_model_run.
+
+(* (G1) theorem (1) restated for the generated code *)
+Theorem C14_generated_conversion_preserves_matrix : forall (T : Type) (zero fill : T) from req to r (v : list T),
+  g_run zero fill from req v = Ok (to, r) -> valid from = true -> length v = nnz from -> values_ok zero from v ->
+  exists w, r = Ok w /\ valid to = true /\ length w = nnz to
+    /\ rows_of to = rows_of from /\ cols_of to = cols_of from /\ sym_of to = sym_of from
+    /\ forall i j, i < rows_of from -> j < cols_of from -> sem zero to w i j = sem zero from v i j.
+Proof. exact generated_conversion_preserves. Qed.
+Print Assumptions C14_generated_conversion_preserves_matrix.
+
+(* (G1') theorem (1') restated for the generated code *)
+Theorem C14_generated_dense_of_preserved : forall (T : Type) (zero fill : T) from req to r (v : list T),
+  g_run zero fill from req v = Ok (to, r) -> valid from = true -> length v = nnz from -> values_ok zero from v ->
+  exists w, r = Ok w /\ dense_of zero to w = dense_of zero from v /\ dense_of zero from v <> None.
+Proof. exact generated_dense_of_preserved. Qed.
+Print Assumptions C14_generated_dense_of_preserved.
+
+(* (G6) the wrong-triangle rejections restated for the generated scatter loops *)
+Theorem C14_generated_wrong_triangle_rejected_coo : forall (T : Type) (zero fill : T) o (v : list T),
+  sym_square_ok (o_sym o) (o_rows o) (o_cols o) = true -> length (o_row o) = length (o_col o) ->
+  length v = nnz (SCOO o) ->
+  existsb (fun k => negb (in_tri (o_sym o) (fst k) (snd k))) (coo_keys o) = true ->
+  exists to, g_run zero fill (SCOO o) RDense v = Ok (to, ThrowInvalidArgument).
+Proof. exact generated_wrong_triangle_rejected_coo. Qed.
+Print Assumptions C14_generated_wrong_triangle_rejected_coo.
+
+Theorem C14_generated_wrong_triangle_rejected_csc : forall (T : Type) (zero fill : T) s (v : list T),
+  sym_square_ok (c_sym s) (c_rows s) (c_cols s) = true -> outer_ok s = true ->
+  length v = nnz (SCSC s) ->
+  existsb (fun k => negb (in_tri (c_sym s) (Z.of_nat (fst k)) (Z.of_nat (snd k)))) (csc_expand s) = true ->
+  exists to, g_run zero fill (SCSC s) RDense v = Ok (to, ThrowInvalidArgument).
+Proof. exact generated_wrong_triangle_rejected_csc. Qed.
+Print Assumptions C14_generated_wrong_triangle_rejected_csc.
+
+(* (G0) the dispatch over the generated pieces has an alternative for every (From, To) pair, and the translated build
+        has ALPAQA_HAVE_COO_CSC_CONVERSIONS off — the build Sparsity.v models *)
+Theorem C14_generated_dispatch_is_total :
+  (forall a b : fmt, In (a, b) g_specialisations) /\ g_have_coo_csc_conversions = false.
+Proof. exact generated_dispatch_is_total. Qed.
+Print Assumptions C14_generated_dispatch_is_total.
+
 (* ---------------------------------------------------------------- non-vacuity *)
 (* upper-symmetric 3x3 CSC, unsorted column, -> Dense: hypotheses of (1) hold and the result is the mirrored matrix *)
 Definition ex_csc : sparsity :=
@@ -133,3 +186,9 @@ Example C14_nonvacuous_wrong_triangle :
   exists to, convert (SCOO o) RDense = Ok (to, VScatter Upper 3 3 (coo_keys o)) /\
              convert_values 0%Z (VScatter Upper 3 3 (coo_keys o)) [5; 6]%Z = ThrowInvalidArgument.
 Proof. repeat split. eexists; split; reflexivity. Qed.
+
+(* the generated converters on the first example: same result, the sentinel -777 nowhere left *)
+Example C14_nonvacuous_generated :
+  g_run 0%Z (-777)%Z ex_csc RDense [11; 22; 12; 33; 13]%Z
+  = Ok (SDense (mkDense 3 3 Upper), Ok [11; 12; 0; 12; 22; 13; 0; 13; 33]%Z).
+Proof. reflexivity. Qed.
